@@ -65,6 +65,7 @@ class SeqTheory:
             FA([s, n], Imp(And(0 <= n, n <= Len(s)), Len(Drop(s, n)) == Len(s) - n), patterns=[Drop(s, n)]),
             FA([s, n, j], Imp(And(0 <= n, 0 <= j, j < Len(s) - n), At(Drop(s, n), j) == At(s, j + n)), patterns=[At(Drop(s, n), j)]),
             FA([s], Take(s, 0) == Empty, patterns=[Take(s, 0)]),
+            FA([s, v, n], Imp(And(0 <= n, n <= Len(s)), Take(Build(s, v), n) == Take(s, n)), patterns=[Take(Build(s, v), n)]),
             # (no general "Take(s,n) = Build(Take(s,n-1), s[n-1])" axiom: it is a matching loop; the engine adds the instance for the
             #  iterated sequence at each loop head instead)
             FA([s], Drop(s, 0) == s, patterns=[Drop(s, 0)]),
